@@ -135,7 +135,7 @@ the remaining input must be threaded through every step of a production (C15-8: 
 `source_text_incomplete` parses the same text twice; now a failure of gvc.top for C15 and of the faithfulness lemma for C01);
 `first()` next to `last()` on the version stack (C13-7).
 Round 5 (small slips, the other nine properties; 6 of 18 first MISSED), round 6 (indirect dependencies; 12 of 30 first MISSED),
-round 7 (data and metadata; 8 of 34 first MISSED) and round 8 (rarely executed code and boundary cases; 13 of 34 first MISSED, two of them - C17-15/16, alternatives re-ordered so that a white space holding a directive is lexed twice - further instances of the listed finding K7, now undecided) and round 9 (configurations and entry points the tests never use; 9 of 30 first MISSED) and round 10 (arithmetic and positions; 3 of 28 first MISSED):
+round 7 (data and metadata; 8 of 34 first MISSED) and round 8 (rarely executed code and boundary cases; 13 of 34 first MISSED, two of them - C17-15/16, alternatives re-ordered so that a white space holding a directive is lexed twice - further instances of the listed finding K7, now undecided) and round 9 (configurations and entry points the tests never use; 9 of 30 first MISSED) and round 10 (arithmetic and positions; 3 of 25 first MISSED):
 see section 10.3e for the obligations they led to - gvc.kwsites, the dual obligation of gvc.pptotal, the C18 projection of
 `split_text`, once-initialised statics, the capacity of the recursion-flag table read from Cargo.toml, the span / line projections of
 the derive-generated `Locate` fold and `Locate::str` as premises of every arms-based property, conditional selection under C11,
